@@ -8,6 +8,7 @@
   page_ctm            the rotation -> CTM if/elif table of pdfinterp.PDFPageInterpreter.process_page
   begin_page_bbox     converter.PDFLayoutAnalyzer.begin_page: box of the LTPage
 
+  add_rotation        high_level.extract_text_to_fp: `page.rotate = (page.rotate + rotation) % 360`
   overlay_cond        test of the overlay loop in create_pages.depth_first_search
   select_yield        test `not pagenos or pageno in pagenos` of the get_pages loop
   select_break        test `maxpages and maxpages <= pageno + 1` of the get_pages loop
@@ -188,6 +189,39 @@ def rotate_function(page_mod):
     if not ok:
         raise P.Untranslatable('self.rotate: int_value argument is not self.attrs.get("Rotate", <int>)')
     return mkfun("norm_rotate", [("r", "int")], "int", [ast.Return(value=expr)]), int(g.args[1].value)
+
+
+def add_rotation_function(hl_mod) -> ast.FunctionDef:
+    """The `rotation` option of extract_text_to_fp: the assignment to page.rotate inside the loop over
+    PDFPage.get_pages, which must be followed by interpreter.process_page(page)."""
+    fn = P.find_function(hl_mod, "extract_text_to_fp")
+    loop = find_for(fn.body, lambda f: "get_pages" in ast.unparse(f.iter))
+    if loop is None or len(loop.body) != 2:
+        raise P.Untranslatable("extract_text_to_fp: loop over PDFPage.get_pages with two statements not found")
+    asg, proc = loop.body
+    if not (isinstance(asg, ast.Assign) and len(asg.targets) == 1 and is_attr(asg.targets[0], "page", "rotate")):
+        raise P.Untranslatable("extract_text_to_fp: first loop statement is not `page.rotate = ...`")
+    if ast.unparse(proc) != "interpreter.process_page(page)":
+        raise P.Untranslatable("extract_text_to_fp: second loop statement is not interpreter.process_page(page)")
+    kw = {k.arg: ast.unparse(k.value) for k in loop.iter.keywords}
+    args = [ast.unparse(a) for a in loop.iter.args]
+    if args != ["inf", "page_numbers"] or kw.get("maxpages") != "maxpages":
+        raise P.Untranslatable("extract_text_to_fp: get_pages is not called with (inf, page_numbers, maxpages=maxpages)")
+    expr = Subst({("page", "rotate"): "rotate"}).visit(copy.deepcopy(asg.value))
+    return mkfun("add_rotation", [("rotate", "int"), ("rotation", "int")], "int", [ast.Return(value=expr)])
+
+
+def check_selection_plumbing(hl_mod) -> None:
+    """extract_text / extract_pages hand page_numbers and maxpages to PDFPage.get_pages unchanged."""
+    for name in ("extract_text", "extract_pages"):
+        fn = P.find_function(hl_mod, name)
+        calls = [n for n in ast.walk(fn) if isinstance(n, ast.Call) and ast.unparse(n.func) == "PDFPage.get_pages"]
+        if len(calls) != 1:
+            raise P.Untranslatable(f"{name}: expected exactly one call of PDFPage.get_pages")
+        c = calls[0]
+        kw = {k.arg: ast.unparse(k.value) for k in c.keywords}
+        if [ast.unparse(a) for a in c.args] != ["fp", "page_numbers"] or kw.get("maxpages") != "maxpages":
+            raise P.Untranslatable(f"{name}: get_pages is not called with (fp, page_numbers, maxpages=maxpages)")
 
 
 def us_letter(page_mod):
@@ -407,7 +441,9 @@ def generate(lean_dir: str):
     page_mod = P.parse_file("pdfminer/pdfpage.py")
     interp_mod = P.parse_file("pdfminer/pdfinterp.py")
     conv_mod = P.parse_file("pdfminer/converter.py")
-    out = [P.HEADER.format(src="pdfminer/pdfpage.py, pdfinterp.py, converter.py", ns="PageTree")
+    hl_mod = P.parse_file("pdfminer/high_level.py")
+    check_selection_plumbing(hl_mod)
+    out = [P.HEADER.format(src="pdfminer/pdfpage.py, pdfinterp.py, converter.py, high_level.py", ns="PageTree")
            .replace("import PdfVerif.Model.Prelude\n", "import PdfVerif.Model.Prelude\nimport PdfVerif.Gen.Utils\n")]
     out.append("/-- Python `abs` on a real. -/\ndef ratAbs (q : Rat) : Rat := if q < 0 then -q else q\n\n")
     inh = P.literal(P.find_assign(page_mod, "PDFPage.INHERITABLE_ATTRS"))
@@ -417,6 +453,7 @@ def generate(lean_dir: str):
     rot_fn, rot_default = rotate_function(page_mod)
     out.append(f"def ROTATE_DEFAULT : Int := {rot_default}\n\n")
     out.append(T({}, default_kind="int").function(rot_fn) + "\n")
+    out.append(T({}, default_kind="int").function(add_rotation_function(hl_mod)) + "\n")
     out.append("def US_LETTER : Rect := (" + ", ".join(rat_lit(x) for x in us_letter(page_mod)) + ")\n\n")
     out.append(T({}, default_kind="rat").function(P.find_function(page_mod, "PDFPage._normalize_rect"),
                                                    lean_name="normalize_rect") + "\n")
